@@ -67,6 +67,8 @@ Fixpoint st_of_sexp (x : sexp) : option st :=
         end
       else if t =? "paren" then match args with [a] => option_map SParen (st_of_sexp a) | _ => None end
       else if t =? "lint" then match args with [z] => option_map (fun z' => SLit (LInt z')) (sexp_Z z) | _ => None end
+      else if t =? "ldbl" then match args with [tok] => option_map (fun t' => SLit (LDbl t')) (opt_str tok) | _ => None end
+      else if t =? "lnegdbl" then match args with [tok] => option_map SNegDbl (opt_str tok) | _ => None end
       else if t =? "lneg" then match args with [z] => option_map SNegLit (sexp_Z z) | _ => None end
       else if t =? "luint" then match args with [z] => option_map (fun z' => SLit (LUint z')) (sexp_Z z) | _ => None end
       else if t =? "ltrue" then match args with [] => Some (SLit (LBool true)) | _ => None end
